@@ -17,10 +17,17 @@ _SYM = (ast.Eq, ast.Is)
 _NAME = {ast.Eq: '==', ast.Is: 'is', ast.In: 'in', ast.Lt: '<', ast.LtE: '<='}
 
 
+TOTAL_ORDER = False     # set (temporarily) by equivalent(..., total_order=True): operands are integers, so a >= b is not (a < b)
+
+
 def _atom(left, op, right):
     '''(key, positive) of one binary comparison.'''
     pos = True
     t = type(op)
+    if TOTAL_ORDER and t in (ast.GtE, ast.LtE):
+        # a >= b  ==  not (a < b) ;  a <= b  ==  not (b < a)
+        a, b = (left, right) if t is ast.GtE else (right, left)
+        return f'{src(a)} < {src(b)}', False
     if t in _NEG:
         t, pos = _NEG[t], False
     a, b = src(left), src(right)
@@ -77,8 +84,16 @@ def value(f, env):
     return any(value(g, env) for g in f[1])
 
 
-def equivalent(t1, t2, limit=14):
-    '''Are the two test expressions (AST nodes or source strings) the same boolean function of their atoms?'''
+def equivalent(t1, t2, limit=14, total_order=False):
+    '''Are the two test expressions (AST nodes or source strings) the same boolean function of their atoms?
+    total_order=True: the compared quantities are integers (no NaN), so `a >= b` is read as `not a < b`.'''
+    global TOTAL_ORDER
+    if total_order:
+        TOTAL_ORDER = True
+        try:
+            return equivalent(t1, t2, limit)
+        finally:
+            TOTAL_ORDER = False
     if isinstance(t1, str):
         t1 = ast.parse(t1, mode='eval').body
     if isinstance(t2, str):
